@@ -90,6 +90,13 @@ def run_unit(repo, specs, unit, timeout_ms=10000):
         status = 'crash'
         detail = traceback.format_exc()
     gen_s = time.time() - t0
+    # a contract / lemma may ask for a larger solver budget than the tier's (option solver_ms=...): a few sequence-heavy
+    # obligations are decided only by the later, longer attempts of the seed plan, and must not flip on a slower machine
+    try:
+        opts = (specs.lemmas[name].options if kind == 'lemma' else c.options) if kind != 'spec' else {}
+    except Exception:
+        opts = {}
+    timeout_ms = max(timeout_ms, int(opts.get('solver_ms', 0) or 0))
     results = solve_all(eng, eng.obls, timeout_ms)
     return eng, status, detail, results, gen_s
 
@@ -102,7 +109,7 @@ def solve_all(eng, obls, timeout_ms):
     n = len(obls)
     start = 0
     ctx = multiprocessing.get_context('fork')
-    budget = timeout_ms * 1.6 / 1000.0 + 25.0
+    budget = timeout_ms * 1.6 / 1000.0 + 60.0
 
     def child(conn, first, shift):
         nconc = 0
